@@ -164,6 +164,39 @@ def handle (w : World) (line : String) : World × String :=
         let (w', _) := step w (.insert t k h q (normTtl n rttl) a n ns (ip = "1")); (w', "ok")
       else (w, "ok")
     | _, _, _, _, _, _, _, _, _, _ => (w, "bad-op")
+  | "ask" :: toks =>
+    -- a whole request through HandleWithResponseWriter_ (as-is route), upstream round trip 1 s:
+    -- derive the key, look up; stale hit with needRefresh ⇒ the background refresh stores the
+    -- upstream's reply and runs its clean-up one second later; miss ⇒ forward, store the reply one
+    -- second later and look the key up once more (that lookup's needRefresh is dropped by the caller).
+    match (kv toks "t").bind intOf, (kv toks "name").bind unhex, (kv toks "qtype").bind natOf,
+          (kv toks "dst").bind unhex, (kv toks "rttl").bind natOf, (kv toks "ans").bind natOf,
+          (kv toks "n").bind natOf, (kv toks "ns").bind natOf, (kv toks "rcode").bind natOf with
+    | some t, some name, some q, some dst, some rttl, some a, some n, some ns, some rc =>
+      let key := responseKey name q (.asIs (some dst))
+      let host := fqdn name
+      let store (w : World) : World :=
+        if cacheable true 1 rc then (step w (.insert (t + SEC) key host q (normTtl n rttl) a n ns false)).1 else w
+      let showHit (s : Served) : String :=
+        let an := if s.nAns > 0 then toString s.ans else "-"
+        let tt := if s.visible then toString s.ttl else "-"
+        s!"rcode=0 ans={an} n={s.nAns} ttl={tt}"
+      match step w (.lookup t key false) with
+      | (w1, .hit s) =>
+        if s.refresh then
+          let w2 := store w1
+          let (w3, _) := step w2 (.refreshDone (t + SEC) key)
+          (w3, s!"ask lat=0 fw=1 {showHit s}")
+        else (w1, s!"ask lat=0 fw=0 {showHit s}")
+      | (w1, .miss) =>
+        let w2 := store w1
+        match step w2 (.lookup (t + SEC) key false) with
+        | (w3, .hit s) => (w3, s!"ask lat={SEC} fw=1 {showHit s}")
+        | (w3, .miss) =>
+          -- the upstream's own message goes out (TTLs as the upstream sent them, zeroed for A/AAAA)
+          let an := if n > 0 then toString a else "-"
+          (w3, s!"ask lat={SEC} fw=1 rcode={rc} ans={an} n={n} ttl=up")
+    | _, _, _, _, _, _, _, _, _ => (w, "bad-op")
   | "look" :: toks =>
     match (kv toks "t").bind intOf, (kv toks "key").bind unhex, kv toks "ign" with
     | some t, some k, some ign => let (w', r) := step w (.lookup t k (ign = "1")); (w', resStr r)
